@@ -25,6 +25,18 @@ def K(*a):
 ZERO = (K('const', 0), K('const', 0.0))
 
 
+_NEG = {'==': '!=', '!=': '==', '<': '>=', '>=': '<', '>': '<=', '<=': '>'}
+
+
+def canon_guard(g):
+    """`if c: continue` (skip-if c) and an else branch (not c) are the positive guard with the comparison negated"""
+    if g[0] in ('skip', 'not') and g[1][0] == 'cmp' and g[1][1] in _NEG:
+        return K('cmp', _NEG[g[1][1]], *g[1][2:])
+    if g[0] in ('skip', 'not') and g[1][0] in ('skip', 'not'):
+        return canon_guard(g[1][1]) if g[1][1][0] in ('skip', 'not', 'cmp') else g
+    return g
+
+
 class Contrib:
     """coef * PRODUCT(factors), summed over `domains`, under `guards`"""
 
@@ -32,7 +44,7 @@ class Contrib:
         self.coef = coef
         self.factors = tuple(sorted(factors, key=repr))
         self.domains = tuple(sorted(set(domains), key=repr))
-        self.guards = tuple(sorted(set(guards), key=repr))
+        self.guards = tuple(sorted({canon_guard(g) for g in guards}, key=repr))
 
     def key(self):
         return (self.coef, self.factors, self.domains, self.guards)
@@ -129,8 +141,10 @@ class Interp:
                 return K('cnt', base[1], base[2])
             if e.attr == 'size' and base[0] == 'sub':
                 return K('cnt', base[2], base[3])
-            if e.attr == 'shape' and base[0] in ('rowpos', 'sub'):
+            if e.attr == 'shape' and base[0] in ('rowpos', 'sub', 'vec', 'vals', 'cnts'):
                 return K('shape', base)
+            if e.attr == 'size' and base[0] in ('vec', 'vals', 'cnts', 'uniq'):
+                return self.length_of(base, e)
             raise Unknown(f'attribute .{e.attr} of {render(base)}', e)
         if isinstance(e, ast.Subscript):
             return self.index(self.ev(e.value, env), self.ev(e.slice, env), e)
@@ -168,8 +182,9 @@ class Interp:
         if base[0] == 'tuple' and idx[0] == 'const' and isinstance(idx[1], int) and idx[1] < len(base) - 1:
             return base[1 + idx[1]]
         if base[0] == 'shape' and idx == K('const', 0):
-            b = base[1]
-            return K('cnt', b[1], b[2]) if b[0] == 'rowpos' else K('cnt', b[2], b[3])
+            return self.length_of(base[1], node)
+        if base[0] == 'rowpos' and idx[0] == 'idx' and idx[1] == base:
+            return K('rowelem', base[1], base[2])
         if base[0] in ('cnts', 'vals') and idx[0] == 'idx':
             if idx[1] == K('vals', base[1]):
                 return K('cnt' if base[0] == 'cnts' else 'val', base[1], idx)
@@ -192,6 +207,19 @@ class Interp:
             self.defect('badindex', node, f'joint counts of {base[1]} indexed by an index over {render(idx[1])}')
             return K('badindex', base, idx)
         raise Unknown(f'subscript {render(base)}[{render(idx)}]', node)
+
+    def length_of(self, a, node):
+        if a[0] == 'vec':
+            return K('n',)
+        if a[0] in ('vals', 'cnts'):
+            return K('len', K('vals', a[1]))
+        if a[0] == 'rowpos':
+            return K('cnt', a[1], a[2])
+        if a[0] == 'sub':
+            return K('cnt', a[2], a[3])
+        if a[0] == 'uniq':
+            return K('nuniq', a[1])
+        raise Unknown(f'length of {render(a)}', node)
 
     def div(self, l, r, node):
         if l[0] == 'cnt' and r == K('n',):
@@ -234,22 +262,19 @@ class Interp:
             return self.ev(e.func.value, env)
         args = [self.ev(a, env) for a in e.args]
         name = d.split('.')[-1]
+        if isinstance(e.func, ast.Attribute) and e.func.attr in ('max', 'min', 'sum') and not e.args and not e.keywords and not (d or '').startswith('numpy.'):
+            # array method = numpy function of the array
+            args = [self.ev(e.func.value, env)]
+            d = 'numpy.' + e.func.attr
+            name = e.func.attr
         if d == 'len' or name == 'len' and isinstance(e.func, ast.Name):
-            a = args[0]
-            if a[0] == 'vec':
-                return K('n',)
-            if a[0] in ('vals', 'cnts'):
-                return K('len', K('vals', a[1]))
-            if a[0] == 'rowpos':
-                return K('cnt', a[1], a[2])
-            if a[0] == 'sub':
-                return K('cnt', a[2], a[3])
-            if a[0] == 'uniq':
-                return K('nuniq', a[1])
-            raise Unknown(f'len of {render(a)}', e)
+            return self.length_of(args[0], e)
         if name in ('prange', 'range') and (d in ('numba.prange', 'range', 'prange')):
             if len(args) == 1 and args[0][0] == 'len':
                 return K('range', args[0][1])
+            if len(args) == 1 and args[0][0] == 'cnt' and args[0][2][0] == 'idx' and args[0][2][1][0] == 'vals' and args[0][2][1][1] == args[0][1]:
+                # range(size of the stratum B = i): positions inside the stratum's row list
+                return K('range', K('rowpos', args[0][1], args[0][2]))
             self.defect('badrange', e, f'loop range {ast.unparse(e)} does not cover the complete index domain (a class / stratum is dropped from the sum)')
             doms = [x for a in args for x in _walk(a) if isinstance(x, tuple) and x and x[0] == 'len']
             if doms:
@@ -261,7 +286,12 @@ class Interp:
             if args[0][0] != 'vec':
                 raise Unknown(f'histogram of {render(args[0])}', e)
             return K('tuple', K('vals', args[0][1]), K('cnts', args[0][1]))
-        if d == 'numpy.where' and len(args) == 1:
+        if d == 'numpy.flatnonzero' and len(args) == 1:
+            rows = self.call(ast.copy_location(ast.Call(func=ast.Attribute(value=e.func.value, attr='where', ctx=ast.Load()), args=e.args, keywords=[]), e), env) if isinstance(e.func, ast.Attribute) else None
+            if rows is None:
+                raise Unknown('flatnonzero imported by name', e)
+            return self.index(rows, K('const', 0), e)
+        if d in ('numpy.where', 'numpy.nonzero') and len(args) == 1:
             c = args[0]
             if c[0] == 'cmp' and c[1] != '==' and c[2][0] in ('vec', 'val') and c[3][0] in ('vec', 'val'):
                 self.defect('badcount', e, f'a stratum is selected with relation {c[1]} instead of == (rows of other strata are mixed in; on codes only equality is meaningful)')
@@ -458,6 +488,16 @@ class Interp:
                 dom = K('idx', it[1])
                 env[s.target.elts[0].id] = dom
                 env[s.target.elts[1].id] = K('rowelem', it[1][1], it[1][2])
+            elif it[0] == 'cnts' and isinstance(s.target, ast.Name):
+                dom = K('idx', K('vals', it[1]))
+                env[s.target.id] = K('cnt', it[1], dom)
+            elif it[0] == 'enum' and it[1][0] == 'cnts' and isinstance(s.target, ast.Tuple):
+                dom = K('idx', K('vals', it[1][1]))
+                env[s.target.elts[0].id] = dom
+                env[s.target.elts[1].id] = K('cnt', it[1][1], dom)
+            elif it[0] == 'rowpos' and isinstance(s.target, ast.Name):
+                dom = K('idx', it)
+                env[s.target.id] = K('rowelem', it[1], it[2])
             elif it[0] == 'vec' and isinstance(s.target, ast.Name):
                 raise Unknown('loop over the elements of a code vector', s)
             else:
@@ -650,7 +690,7 @@ def drop_harmless_guards(found, corrected):
         for g in c.guards:
             if g[0] == 'skip' and g[1][0] == 'pure' and g[1][1][0] == 'sub' and g[1][1][4] is False:
                 continue
-            if g[0] == 'skip' and g[1][0] == 'cmp' and g[1][1] == '==' and g[1][2][0] == 'nuniq' and g[1][3] == K('const', 1) and g[1][2][1][4] is False:
+            if g[0] == 'cmp' and g[1] == '!=' and g[2][0] == 'nuniq' and g[3] == K('const', 1) and g[2][1][4] is False:
                 continue
             gs.append(g)
         out.append(Contrib(c.coef, c.factors, c.domains, gs))
